@@ -146,8 +146,18 @@ class Repo:
             self.inlined = inline_new_helpers(trees)
         except RuntimeError as e:
             raise AnalysisError(str(e))
+        before = {m: _free_names(t) for m, t in trees.items()}
         if not os.environ.get('VSA_NO_CANON'):
             self.canonical = canonicalise(trees)
+        # the rewrites may not invent reads: every name a function reads
+        # without binding it was read by the module before (guards the
+        # analyser against a faulty canonical pass - never a silent pass)
+        for m, t in trees.items():
+            new = _free_names(t) - before[m]
+            if new:
+                raise AnalysisError(
+                    'canonical form of %s reads names the source does not: '
+                    '%s' % (m, sorted(new)[:5]))
         for modname, rel, src, tree in parsed:
             set_parents(tree)
             mod = ModuleInfo(modname, rel, src, tree)
@@ -319,6 +329,42 @@ class Repo:
             'inlined_helpers': list(self.inlined),
             'canonical_rewrites': dict(self.canonical),
         }
+
+
+def _free_names(tree):
+    """Names that some function of the module reads but does not bind
+    (parameters, assignments, loop/with/except/comprehension targets,
+    imports inside the function), as a set over the whole module."""
+    out = set()
+    for fn in ast.walk(tree):
+        if not isinstance(fn, (ast.FunctionDef, ast.AsyncFunctionDef)):
+            continue
+        bound = set()
+        a = fn.args
+        for x in a.args + a.kwonlyargs + a.posonlyargs:
+            bound.add(x.arg)
+        if a.vararg:
+            bound.add(a.vararg.arg)
+        if a.kwarg:
+            bound.add(a.kwarg.arg)
+        loads = set()
+        for n in ast.walk(fn):
+            if isinstance(n, ast.Name):
+                if isinstance(n.ctx, ast.Load):
+                    loads.add(n.id)
+                else:
+                    bound.add(n.id)
+            elif isinstance(n, ast.arg):
+                bound.add(n.arg)
+            elif isinstance(n, (ast.FunctionDef, ast.ClassDef,
+                                ast.AsyncFunctionDef)):
+                bound.add(n.name)
+            elif isinstance(n, ast.alias):
+                bound.add((n.asname or n.name).split('.')[0])
+            elif isinstance(n, ast.ExceptHandler) and n.name:
+                bound.add(n.name)
+        out |= loads - bound
+    return out
 
 
 def _enclosing_function(node):
